@@ -24,25 +24,42 @@ from harness import world
 from harness.models import parallel as pref
 
 LEVEL = "exploration"
-RULE = ("(a) run_parallel with gated thunks: tasks 0-7 (int or tuple keys, duplicates), every failing subset, workers "
-        "0-8, five order_key shapes; the controller realises every completion order reachable with w workers "
-        "(all of them for n<=5 x all failing subsets x worker counts 0-8 [quick tier: for n=5 the counts 6,7 are left out, "
-        "same pool size as 5 and 8; thorough tier: n<=6, all counts]; sampled for n=6,7; free-running pools under "
-        "switch interval 1e-6). Non-trivial = >=2 tasks and thunk completion order != submission order. "
-        "(b) T1: 2-6 generated graphs, 1-3 calls on one process cache, parallel (2-8 workers, forced completion "
-        "order) vs sequential. Non-trivial = >=2 graphs seeded and completion order != graph order. "
-        "(c) T2: 2-12 episodes, tiers/k/threshold/owner scope/recency/top-m varied, parallel (2-8 workers, forced "
-        "order) vs sequential. Non-trivial = >=2 shards and hits from >=2 shards. Distinct = digest of the case "
-        "(exhaustive enumeration: distinct by construction).")
+RULE = ("(a) run_parallel with gated thunks: tasks 0-7; keys int / tuple / mixed types incl. equal-comparing (1, 1.0, True), "
+        "unorderable and unhashable ones (None, str, dict) under order keys that make them comparable; duplicates; every failing "
+        "subset with 8 Exception shapes (nested ParallelError, two-argument, empty / identical messages) and BaseException "
+        "subclasses; results None / falsy / exception instances as VALUES; merge_fn returning an object / None / [] / 0; tasks as "
+        "list or tuple; workers 0-8 (and -2); the controller realises every completion order reachable with w workers (all of them "
+        "for n<=5 x all failing subsets x worker counts 0-8 [quick tier: for n=5 the counts 6,7 are left out, same pool size as 5 "
+        "and 8; thorough tier: n<=6, all counts]; sampled for n=6,7; free-running pools under switch interval 1e-6). Non-trivial = "
+        ">=2 tasks and thunk completion order != submission order. "
+        "(b) T1: 0-13 generated graphs (node ids shared between graphs), active-graph list with a graph named twice / a graph the "
+        "store does not hold, 1-3 calls on one engine state (stage cache off / LRU / size-aware, smaller than the fan-out), perf.t1 "
+        "caps, scheduler slice caps, other perf.parallel leaves, store failures inside the per-graph tasks of 1..all graphs (last "
+        "call), parallel (2-16 workers, forced completion order, plus free-running pools) vs sequential (5 ways of closing the "
+        "gate). Non-trivial = >=2 graphs seeded and completion order != graph order. "
+        "(c) T2: 0-30 episodes, tiers/k/threshold/owner scope/recency/top-m/ranking weights/backend name varied, quality / MMR / "
+        "hybrid (GEL) layers, perf gate x metrics gate, stage cache with the compared request issued before, earlier queries on the "
+        "same index, episode ids stored more than once (same or other shard, same or other content), parallel (2-8 workers, forced "
+        "order, plus free-running pools) vs sequential. "
+        "Non-trivial = >=2 shards and hits from >=2 shards. Distinct = digest of the case (exhaustive enumeration: distinct by "
+        "construction).")
 ASSUMPTIONS = [
     "completion order = order in which thunk bodies end; the harness releases one gated thunk at a time and waits "
     "for its body to end before releasing the next (Event/Condition hand-shakes; timeouts only as deadlock guards "
-    "that raise a harness error)",
+    "that raise a harness error, or as scheduling grace periods that never enter a verdict)",
     "pool size as documented: min(max_workers, len(tasks)) FIFO workers; max_workers <= 1 runs in the caller thread",
-    "merge_fn spy is pure (returns a fresh object); returned value must be that object",
+    "merge_fn spy is pure (returns a fresh object or None / [] / 0); returned value must be that object",
+    "a task failing with a BaseException that is not an Exception: only 'nothing merged, nothing returned, plain loop stops there' "
+    "is demanded (type / aggregation of the raised error are not documented)",
     "T1/T2: the gated observability metrics parallel_workers/task_count (T1) and t2.task_count/t2.parallel_workers/"
     "t2.partition_count (T2) are excluded from the comparison as documented (they describe the execution mode)",
-    "T2 stage cache disabled (cache transparency is C05); in-memory backend; episodes carry unique ids",
+    "T1 with a failing per-graph task: both paths must raise; IF the parallel path exposes aggregated task failures "
+    "(.errors) they must be all failing tasks in active-graph order; what the stage cache holds after a failed call is not compared",
+    "T1 graph listed twice only with the stage cache off (two concurrent tasks filling one cache entry is the territory of the "
+    "listed eviction-order finding)",
+    "T2 in-memory backend; a stage-cache hit is compared like any result (each path reads the entry it filled itself)",
+    "T2 memories are well-formed: one vector dimension per index (a shard search that raises on a malformed episode is "
+    "deliberately fail-soft in the fan-out and outside the property's domain)",
 ]
 
 GUARD = 120.0  # seconds; deadlock guard only -> harness error, never a verdict
@@ -70,6 +87,7 @@ class Gate:
         self.ev = [threading.Event() for _ in range(n)]
         self.caller_done = False
         self.deadlock = None
+        self.limit = None          # number of tasks the stage handed to run_parallel, once known (scheduling aid only)
 
     def enter(self, i: int) -> None:
         with self.cv:
@@ -105,7 +123,7 @@ def drive(gate: Gate, fn, eff: int, prio):
     def caller():
         try:
             box["out"] = ("ok", fn())
-        except Exception as e:  # noqa: BLE001 - classified by the oracle of each sub-check
+        except BaseException as e:  # noqa: BLE001 - classified by the oracle of each sub-check (incl. SystemExit & co)
             box["out"] = ("exc", e)
         finally:
             gate.set_done()
@@ -121,7 +139,8 @@ def drive(gate: Gate, fn, eff: int, prio):
 
             def settled():
                 e = 1 if "c09-caller" in gate.threads.values() else eff  # body ran in the caller thread: no fan-out
-                return gate.caller_done or gate.deadlock or len(set(gate.started)) >= min(n, len(released) + e)
+                nn = n if gate.limit is None else min(n, gate.limit)
+                return gate.caller_done or gate.deadlock or len(set(gate.started)) >= min(nn, len(released) + e)
 
             while True:
                 with gate.cv:
@@ -183,9 +202,24 @@ class _Boom(Exception):
     pass
 
 
+class _Hard(BaseException):
+    """A failure that is not an `Exception` (same family as SystemExit / GeneratorExit / KeyboardInterrupt)."""
+
+
 EXC = {"ValueError": ValueError, "KeyError": KeyError, "RuntimeError": RuntimeError, "_Boom": _Boom,
        "ZeroDivisionError": ZeroDivisionError}
+# more failure shapes (sampled only): a task that itself raises a ParallelError (nested fan-out) is ONE failing task
+SOFT_EXTRA = ["ParallelError", "StopIteration", "OSError2"]
+# BaseException subclasses: the docstring promises nothing about their type/aggregation; the oracle only demands what the
+# property says about failing tasks in general - no merge of partial results, no normal return
+HARD = {"SystemExit": SystemExit, "_Hard": _Hard, "GeneratorExit": GeneratorExit}
 OKEY_MODES = ["ident", "wrap", "rev", "const", "coarse"]
+OKEY_MIXED = ["const", "repr", "typerank"]  # order keys that make keys of mixed / unorderable types comparable
+MIXED_KEYS = [None, "a", "b", "", 0, 1, 1.0, True, 2, (1, "a"), (1,), {"g": 1}, {"g": 2}, {}]
+_TYPE_RANK = ["NoneType", "bool", "int", "float", "str", "tuple", "dict"]
+RES_KINDS = ["r", "none", "zero", "empty", "false", "exc_value"]
+MRET_MODES = ["obj", "none", "empty", "zero"]
+MSG_MODES = ["indexed", "same", "empty"]
 
 
 def _okey(mode):
@@ -201,19 +235,53 @@ def _okey(mode):
             return 0
         if mode == "coarse":
             return k[0] if tup else k // 2
+        if mode == "repr":
+            return repr(k)
+        if mode == "typerank":
+            return _TYPE_RANK.index(type(k).__name__)
         raise ValueError(mode)
     return f
 
 
 def _norm_key(k):
-    return tuple(k) if isinstance(k, (list, tuple)) else k
+    return tuple(_norm_key(x) for x in k) if isinstance(k, (list, tuple)) else k
 
 
-def _fail_spec(name, i):
+def _msg(case, i):
+    mode = case.get("msg") or "indexed"
+    return f"boom-{i}" if mode == "indexed" else ("boom" if mode == "same" else "")
+
+
+def _mk_exc(name, msg):
+    if name in EXC:
+        return EXC[name](msg)
+    if name in HARD:
+        return HARD[name](msg)
+    if name == "ParallelError":
+        from clematis.engine.util.parallel import ParallelError, TaskError
+        return ParallelError([TaskError("inner", "X", msg), TaskError("inner2", "Y", msg)])
+    if name == "StopIteration":
+        return StopIteration(msg)
+    if name == "OSError2":
+        return OSError(2, msg)  # two-argument exception: str() is "[Errno 2] <msg>"
+    raise ValueError(name)
+
+
+def _fail_spec(name, msg):
     if name is None:
         return None
-    msg = f"boom-{i}"
-    return (name, str(EXC[name](msg)))
+    e = _mk_exc(name, msg)
+    return (type(e).__name__, str(e))
+
+
+def _same_key(a, b):
+    return type(a) is type(b) and a == b
+
+
+def _mk_result(kind, i):
+    if kind == "r":
+        return ("r", i)
+    return {"none": None, "zero": 0, "empty": [], "false": False, "exc_value": ValueError(f"value-{i}")}[kind]
 
 
 def check_par(case, rec=None, count=True):
@@ -222,11 +290,14 @@ def check_par(case, rec=None, count=True):
 
     keys = [_norm_key(k) for k in case["keys"]]
     n = len(keys)
-    fails = [_fail_spec(f, i) for i, f in enumerate(case["fails"])]
+    fails = [_fail_spec(f, _msg(case, i)) for i, f in enumerate(case["fails"])]
     w = int(case["workers"])
     okey = _okey(case["okey"])
     prio = case.get("prio")
     spin = case.get("spin") or [0] * n
+    res_kinds = case.get("res") or ["r"] * n
+    res_obj = [_mk_result(res_kinds[i], i) for i in range(n)]  # what thunk i returns (None / falsy / an exception INSTANCE are values)
+    mret = case.get("mret") or "obj"
     gate = Gate(n, gated=prio is not None)
     merge_calls = []
     merged_obj = []
@@ -234,6 +305,8 @@ def check_par(case, rec=None, count=True):
     def merge(pairs):
         merge_calls.append(pairs)
         obj = {"merged": list(pairs) if isinstance(pairs, list) else pairs}
+        if mret != "obj":
+            obj = {"none": None, "empty": [], "zero": 0}[mret]  # a merge function may return None / something falsy
         merged_obj.append(obj)
         return obj
 
@@ -245,13 +318,15 @@ def check_par(case, rec=None, count=True):
                 for _ in range(spin[i]):
                     x += 1
                 if case["fails"][i] is not None:
-                    raise EXC[case["fails"][i]](f"boom-{i}")
-                return ("r", i)
+                    raise _mk_exc(case["fails"][i], _msg(case, i))
+                return res_obj[i]
             finally:
                 gate.leave(i)
         return thunk
 
     tasks = [(keys[i], mk(i)) for i in range(n)]
+    if case.get("tasks_as") == "tuple":
+        tasks = tuple(tasks)  # `tasks` is documented as a Sequence
     baseline = set(threading.enumerate())
     eff = 1 if w <= 1 else min(w, n)
     old_si = sys.getswitchinterval()
@@ -263,9 +338,15 @@ def check_par(case, rec=None, count=True):
         sys.setswitchinterval(old_si)
     _no_stray_threads(baseline)
 
-    want = pref.ref_run_parallel(keys, fails, w, okey)
     order = info["order"]
     desc = f"n={n} workers={w} order_key={case['okey']} keys={keys} failing={[i for i, f in enumerate(fails) if f]} completion={order}"
+    # a BaseException failure decides the outcome when it is the first failure of the plain loop / anywhere in the pool
+    failing = [i for i, f in enumerate(case["fails"]) if f is not None]
+    if w <= 1:
+        hard_at = failing[0] if failing and case["fails"][failing[0]] in HARD else None
+    else:
+        hard_at = next((i for i in failing if case["fails"][i] in HARD), None)
+    want = pref.ref_run_parallel(keys, fails, w, okey) if hard_at is None else None
 
     if info["early_return"]:
         raise Violation(f"run_parallel returned while thunks were still running ({desc})", case, "par-early-return")
@@ -275,6 +356,22 @@ def check_par(case, rec=None, count=True):
     if twice:
         raise Violation(f"thunks {twice} were run more than once ({desc})", case, "par-rerun")
     ran = sorted(starts)
+    kind, val = out
+    if hard_at is not None:
+        # no clause about type / aggregation of a BaseException; only: nothing is merged, nothing is returned
+        if w <= 1 and ran != list(range(hard_at + 1)):
+            raise Violation(f"plain loop (max_workers={w}): thunks run {ran}, a loop stops at the {case['fails'][hard_at]} of "
+                            f"thunk {hard_at} ({desc})", case, "par-seq-hard-ran")
+        if merge_calls:
+            raise Violation(f"merge_fn was invoked with {merge_calls[0]} although task {hard_at} failed with {case['fails'][hard_at]} ({desc})",
+                            case, "par-merge-on-hard-failure")
+        if kind != "exc":
+            raise Violation(f"run_parallel returned {val!r} although task {hard_at} failed with {case['fails'][hard_at]} ({desc})",
+                            case, "par-swallowed-hard-failure")
+        if rec is not None and count:
+            rec.case(nontrivial=False, dig=None, labels=[f"n={n}", "fail=hard", f"hard={case['fails'][hard_at]}",
+                                                          "workers<=1" if w <= 1 else "workers>1"])
+        return False, order
     if ran != want["ran"]:
         if w <= 1 and len(ran) > len(want["ran"]):
             raise Violation(f"sequential path (max_workers={w}) kept running thunks {sorted(set(ran) - set(want['ran']))} after the "
@@ -285,18 +382,21 @@ def check_par(case, rec=None, count=True):
         if names != {"c09-caller"}:
             raise Violation(f"max_workers={w} must run in the caller thread, thunks ran in {sorted(names)}", case, "par-seq-thread")
 
-    kind, val = out
     if want["kind"] == "ok":
         if kind != "ok":
             raise Violation(f"run_parallel raised {type(val).__name__}: {val} although no task failed ({desc})", case, "par-raises")
         if len(merge_calls) != 1:
             raise Violation(f"merge_fn called {len(merge_calls)} times ({desc})", case, "par-merge-count")
         got = merge_calls[0]
-        if not isinstance(got, list) or [tuple(p) if isinstance(p, (list, tuple)) else p for p in got] != want["pairs"]:
-            raise Violation(f"merge_fn received {got}, documented order (order_key, submit index) gives {want['pairs']} ({desc})",
+        exp = [(k, res_obj[ri[1]]) for k, ri in want["pairs"]]
+        same = isinstance(got, list) and len(got) == len(exp) and all(
+            isinstance(p, (list, tuple)) and len(p) == 2 and _same_key(p[0], e[0]) and
+            (p[1] == e[1] if isinstance(e[1], tuple) else p[1] is e[1]) for p, e in zip(got, exp))
+        if not same:
+            raise Violation(f"merge_fn received {got}, documented order (order_key, submit index) gives {exp} ({desc})",
                             case, "par-merge-order")
         if val is not merged_obj[0]:
-            raise Violation(f"run_parallel returned {val!r}, not the value of merge_fn ({desc})", case, "par-return")
+            raise Violation(f"run_parallel returned {val!r}, not the value of merge_fn ({merged_obj[0]!r}) ({desc})", case, "par-return")
     else:
         if merge_calls:
             raise Violation(f"merge_fn was invoked with {merge_calls[0]} although tasks failed ({desc})", case, "par-merge-on-failure")
@@ -306,7 +406,7 @@ def check_par(case, rec=None, count=True):
         if not isinstance(val, ParallelError):
             raise Violation(f"run_parallel raised {type(val).__name__}: {val} instead of ParallelError ({desc})", case, "par-raise-type")
         got_err = [(e.key, e.exc_type, e.message) for e in val.errors]
-        if got_err != want["errors"]:
+        if len(got_err) != len(want["errors"]) or any(not _same_key(g[0], x[0]) or tuple(g[1:]) != tuple(x[1:]) for g, x in zip(got_err, want["errors"])):
             raise Violation(f"ParallelError.errors = {got_err}, documented: {want['errors']} ({desc})", case, "par-errors")
 
     nt = n >= 2 and order != sorted(order)
@@ -314,15 +414,29 @@ def check_par(case, rec=None, count=True):
         nf = sum(1 for f in fails if f)
         labels = [f"n={n}", "workers<=1" if w <= 1 else ("workers<n" if w < n else "workers>=n"),
                   f"okey={case['okey']}", "fail=0" if nf == 0 else ("fail=all" if nf == n else "fail=some")]
-        if len(set(keys)) < n:
+        if any(keys[i] == keys[j] for i in range(n) for j in range(i)):
             labels.append("dup_keys")
+        if any(not isinstance(k, (int, tuple)) or isinstance(k, bool) for k in keys):
+            labels.append("keys=mixed_types")
+        if any(isinstance(k, dict) for k in keys):
+            labels.append("keys=unhashable")
         if nt:
             labels.append("completion!=submission")
         if want["kind"] == "ok" and [p[1][1] for p in want["pairs"]] != order:
             labels.append("merge_order!=completion")
+        if want["kind"] == "ok":
+            labels.append(f"merge_returns={mret}")
+            if any(k != "r" for k in res_kinds):
+                labels.append("falsy_or_exception_results")
+        elif (case.get("msg") or "indexed") != "indexed":
+            labels.append(f"fail_msg={case.get('msg')}")
+        if any(f in SOFT_EXTRA for f in case["fails"] if f):
+            labels.append("fail=nested_or_odd_exception")
+        if case.get("tasks_as") == "tuple":
+            labels.append("tasks=tuple")
         rec.case(nontrivial=nt, dig=digest(case) if nt else None, labels=labels,
                  sample={"keys": keys, "fails": case["fails"], "workers": w, "okey": case["okey"], "completion": order,
-                         "expected": want} if nt else None)
+                         "expected": want} if nt and all(k == "r" for k in res_kinds) else None)
     return nt, order
 
 
@@ -333,6 +447,7 @@ _KEY_PATTERNS = [
     lambda n: [(i % 2) for i in range(n)],                     # duplicates: tie-break by submit index
     lambda n: [((n - i) // 2, "ba"[i % 2]) for i in range(n)],  # tuple keys with equal first fields
     lambda n: [(i * 3) % n for i in range(n)] if n else [],    # a permutation-like scatter
+    lambda n: [MIXED_KEYS[(i * 5 + n) % len(MIXED_KEYS)] for i in range(n)],  # mixed types, equal-comparing (1, 1.0, True), unhashable
 ]
 
 
@@ -349,7 +464,9 @@ def _reachable_orders(n, w):
 
 def enum_cases(max_n=5, skip_redundant=False):
     """All (n, workers, reachable completion order, failing subset). skip_redundant (quick tier): for the largest n the
-    worker counts strictly between n and 8 are left out - they give the same pool size (= n) as workers=n and workers=8."""
+    worker counts strictly between n and 8 are left out - they give the same pool size (= n) as workers=n and workers=8.
+    The remaining dimensions (key shape, order_key, exception type / message, result values, merge return value, task
+    container) are cycled along the enumeration index with pairwise coprime periods."""
     idx = 0
     for n in range(0, max_n + 1):
         for w in range(0, 9):
@@ -358,8 +475,19 @@ def enum_cases(max_n=5, skip_redundant=False):
             for prio in _reachable_orders(n, w):
                 for mask in range(1 << n):
                     fails = [("ValueError", "KeyError", "_Boom")[(i + idx) % 3] if (mask >> i) & 1 else None for i in range(n)]
-                    keys = _KEY_PATTERNS[idx % len(_KEY_PATTERNS)](n)
-                    yield idx, {"keys": keys, "fails": fails, "workers": w, "prio": prio, "okey": OKEY_MODES[(idx // 4) % len(OKEY_MODES)]}
+                    if mask and idx % 11 == 0:
+                        # one of the failing tasks raises a BaseException subclass instead
+                        j = [i for i in range(n) if (mask >> i) & 1][(idx // 11) % bin(mask).count("1")]
+                        fails[j] = sorted(HARD)[(idx // 11) % len(HARD)]
+                    pat = idx % len(_KEY_PATTERNS)
+                    keys = _KEY_PATTERNS[pat](n)
+                    okey = OKEY_MIXED[(idx // 5) % len(OKEY_MIXED)] if pat == 4 else OKEY_MODES[(idx // 4) % len(OKEY_MODES)]
+                    case = {"keys": keys, "fails": fails, "workers": w, "prio": prio, "okey": okey,
+                            "msg": MSG_MODES[(idx // 3) % len(MSG_MODES)], "mret": MRET_MODES[(idx // 7) % len(MRET_MODES)],
+                            "res": [RES_KINDS[(idx // 2 + i * (1 + idx % 5)) % len(RES_KINDS)] if idx % 2 else "r" for i in range(n)]}
+                    if idx % 13 == 0:
+                        case["tasks_as"] = "tuple"
+                    yield idx, case
                     idx += 1
 
 
@@ -389,26 +517,54 @@ def sub_par_exhaustive(rec, seed, shard, nshards, max_n=5, skip_redundant=False)
 
 # ---- sampled (n up to 7, free key/order_key/exception choice)
 
+_ST_N = st.sampled_from([1, 2, 3, 4, 5, 6, 6, 7, 7, 7])
+_ST_KEYFAM = st.sampled_from(["int", "int", "tuple", "tuple", "mixed"])
+_ST_INTKEY = st.integers(0, 4)
+_ST_TUPKEY = st.tuples(st.integers(0, 2), st.sampled_from(["a", "b", "g10", "g2"]))
+_ST_MIXKEY = st.sampled_from(list(range(len(MIXED_KEYS))))
+_ST_FM = st.sampled_from(["none", "none", "some", "some", "all", "one", "first", "last", "hard"])
+_ST_EXC = st.sampled_from(sorted(EXC) + sorted(EXC) + SOFT_EXTRA)
+_ST_EXC_OR_NONE = st.sampled_from([None, None, None] + sorted(EXC) + SOFT_EXTRA)
+_ST_HARD = st.sampled_from(sorted(HARD))
+_ST_W = st.sampled_from([0, 1, 2, 2, 3, 3, 4, 5, 6, 7, 8, -2])
+_ST_OKEY = st.sampled_from(OKEY_MODES)
+_ST_OKEY_MIXED = st.sampled_from(OKEY_MIXED)
+_ST_MSG = st.sampled_from(["indexed", "indexed", "same", "empty"])
+_ST_MRET = st.sampled_from(["obj", "obj", "none", "empty", "zero"])
+_ST_RES = st.sampled_from(["r", "r", "r"] + RES_KINDS)
+_ST_PLAIN = st.sampled_from([True, False])
+
+
 @st.composite
 def par_cases(draw):
-    n = draw(st.sampled_from([1, 2, 3, 4, 5, 6, 6, 7, 7, 7]))
-    if draw(st.booleans()):
-        keys = [draw(st.integers(0, 4)) for _ in range(n)]
+    n = draw(_ST_N)
+    fam = draw(_ST_KEYFAM)
+    if fam == "int":
+        keys = [draw(_ST_INTKEY) for _ in range(n)]
+    elif fam == "tuple":
+        keys = [draw(_ST_TUPKEY) for _ in range(n)]
     else:
-        keys = [(draw(st.integers(0, 2)), draw(st.sampled_from(["a", "b", "g10", "g2"]))) for _ in range(n)]
-    fm = draw(st.sampled_from(["none", "none", "some", "some", "all", "one"]))
+        keys = [MIXED_KEYS[draw(_ST_MIXKEY)] for _ in range(n)]
+    fm = draw(_ST_FM)
     if fm == "none":
         fails = [None] * n
     elif fm == "all":
-        fails = [draw(st.sampled_from(sorted(EXC))) for _ in range(n)]
-    elif fm == "one":
-        j = draw(st.integers(0, n - 1))
-        fails = [draw(st.sampled_from(sorted(EXC))) if i == j else None for i in range(n)]
+        fails = [draw(_ST_EXC) for _ in range(n)]
+    elif fm in ("one", "first", "last", "hard"):
+        j = 0 if fm == "first" else (n - 1 if fm == "last" else draw(st.integers(0, n - 1)))
+        fails = [draw(_ST_EXC_OR_NONE) if fm == "hard" else None for _ in range(n)]
+        fails[j] = draw(_ST_HARD) if fm == "hard" else draw(_ST_EXC)
     else:
-        fails = [draw(st.sampled_from([None, None] + sorted(EXC))) for _ in range(n)]
-    w = draw(st.sampled_from([0, 1, 2, 2, 3, 3, 4, 5, 6, 7, 8, -2]))
+        fails = [draw(_ST_EXC_OR_NONE) for _ in range(n)]
+    w = draw(_ST_W)
     prio = list(draw(st.permutations(list(range(n)))))
-    return {"keys": keys, "fails": fails, "workers": w, "prio": prio, "okey": draw(st.sampled_from(OKEY_MODES))}
+    case = {"keys": keys, "fails": fails, "workers": w, "prio": prio, "okey": draw(_ST_OKEY_MIXED if fam == "mixed" else _ST_OKEY),
+            "msg": draw(_ST_MSG), "mret": draw(_ST_MRET)}
+    if not draw(_ST_PLAIN):
+        case["res"] = [draw(_ST_RES) for _ in range(n)]
+    if draw(_ST_RES) == "none":
+        case["tasks_as"] = "tuple"
+    return case
 
 
 def sub_par_sampled(rec, seed, shard, nshards, n=400, shrink=True):
@@ -421,15 +577,21 @@ def sub_par_free(rec, seed, shard, nshards, n=300):
     rng = random.Random(seed)
     for _ in range(n):
         k = rng.choice([2, 3, 4, 5, 6, 7])
-        if rng.random() < 0.5:
+        fam = rng.choice(["int", "int", "tuple", "tuple", "mixed"])
+        if fam == "int":
             keys = [rng.randrange(0, 4) for _ in range(k)]
-        else:
+        elif fam == "tuple":
             keys = [(rng.randrange(0, 3), rng.choice(["a", "b", "g10"])) for _ in range(k)]
-        fm = rng.choice(["none", "none", "some", "all"])
-        fails = [None if fm == "none" else (rng.choice(sorted(EXC)) if (fm == "all" or rng.random() < 0.4) else None) for _ in range(k)]
+        else:
+            keys = [rng.choice(MIXED_KEYS) for _ in range(k)]
+        fm = rng.choice(["none", "none", "some", "all", "hard"])
+        fails = [None if fm == "none" else (rng.choice(sorted(EXC) + SOFT_EXTRA) if (fm == "all" or rng.random() < 0.4) else None) for _ in range(k)]
+        if fm == "hard":
+            fails[rng.randrange(k)] = rng.choice(sorted(HARD))
         case = {"keys": keys, "fails": fails, "workers": rng.choice([2, 2, 3, 4, 8, 1]), "prio": None,
-                "okey": rng.choice(OKEY_MODES), "spin": [rng.choice([0, 10, 200, 2000, 20000]) for _ in range(k)],
-                "switch": 1e-6}
+                "okey": rng.choice(OKEY_MIXED if fam == "mixed" else OKEY_MODES), "spin": [rng.choice([0, 10, 200, 2000, 20000]) for _ in range(k)],
+                "switch": 1e-6, "msg": rng.choice(MSG_MODES), "mret": rng.choice(MRET_MODES),
+                "res": [rng.choice(["r", "r"] + RES_KINDS) for _ in range(k)]}
         try:
             check_par(case, rec)
         except Violation as v:
@@ -469,6 +631,10 @@ class _Fanout:
         def spy(tasks, *, max_workers, merge_fn, order_key):
             gate = self.gate
             self.calls.append({"tasks": len(tasks), "max_workers": max_workers})
+            if gate is not None:
+                with gate.cv:
+                    gate.limit = len(tasks)
+                    gate.cv.notify_all()
             if merge_fn is None and order_key is None and self.fix_none_merge is not None and self.fix_none_merge():
                 self.substituted += 1
                 merge_fn = lambda pairs: [r for _, r in pairs]  # noqa: E731
@@ -516,28 +682,47 @@ OFF_MODES = ["absent", "disabled", "gate_off", "workers1", "workers0"]
 
 
 class GatedStore:
-    """Store proxy: get_graph(gid) (the first thing a per-graph task does) blocks until the controller releases gid."""
+    """Store proxy: get_graph(gid) (the first thing a per-graph task does) blocks until the controller releases gid.
+    `faults` (set of gids) makes get_graph raise AFTER the release - a store-level failure inside ONE per-graph task."""
 
     def __init__(self, inner, index):
         self._inner = inner
         self._index = index
         self.gate = None
+        self.faults = ()
 
     def get_graph(self, gid):
         g = self.gate
         if g is not None and gid in self._index:
             g.enter(self._index[gid])
+        if gid in self.faults:
+            raise _Boom(f"fault-{gid}")
         return self._inner.get_graph(gid)
 
     def __getattr__(self, name):
         return getattr(self._inner, name)
 
 
+_ST_NG = st.sampled_from([0, 1, 1, 2, 2, 2, 3, 3, 3, 4, 5, 6, 6, 11, 12, 13, 11, 12])  # > 10 graphs: task indices gain a digit
+_ST_T1_CACHE = st.sampled_from(["off", "off", "lru", "lru", "lru_small", "bytes", "bytes_small"])
+_ST_123 = st.sampled_from([1, 2, 3])
+_ST_B3 = st.sampled_from([False, True, True])
+_ST_CAP = st.sampled_from([1, 2, 3, 100])
+_ST_WIN = st.sampled_from([1, 2, 4])
+_ST_NCALLS_C = st.sampled_from([1, 2, 2, 3, 3])
+_ST_NCALLS_0 = st.sampled_from([1, 1, 1, 2])
+_ST_ONE_IN_3 = st.sampled_from([True, False, False])
+_ST_ONE_IN_4 = st.sampled_from([True, False, False, False])
+_ST_ONE_IN_6 = st.sampled_from([True, False, False, False, False, False])
+_ST_T1_W = st.sampled_from([2, 2, 3, 4, 5, 6, 7, 8, 16])
+_ST_SLICE = st.sampled_from([0, 1, 2, 3, 5, 50])
+
+
 @st.composite
 def t1_cases(draw):
     from checks.c12 import t1_cfgs
 
-    ng = draw(st.sampled_from([2, 2, 3, 3, 4, 5, 6, 11, 12, 13]))  # > 10 graphs: task indices gain a digit
+    ng = draw(_ST_NG)
     gids = draw(st.lists(st.sampled_from(T1_GIDS + T1_GIDS_MORE), min_size=ng, max_size=ng, unique=True))
     if ng > 6:
         # many graphs: small ones, each with a node every text matches (all of them produce deltas)
@@ -548,29 +733,60 @@ def t1_cases(draw):
         graphs = {gid: draw(world.graph_specs(max_nodes=6, max_edges=8)) for gid in gids}
     t1 = draw(t1_cfgs())
     t1.pop("cache", None)
-    cache = draw(st.sampled_from(["off", "off", "lru", "lru", "lru_small", "bytes", "bytes_small"]))
-    cache_n = draw(st.sampled_from([1, 2, 3]))
-    perf = {"enabled": draw(st.sampled_from([False, True, True])) or cache.startswith("bytes"),
+    cache = draw(_ST_T1_CACHE)
+    cache_n = draw(_ST_123)
+    perf = {"enabled": draw(_ST_B3) or cache.startswith("bytes"),
             "metrics": {"report_memory": draw(st.booleans())}}
-    if draw(st.sampled_from([True, False, False])):
+    if draw(st.booleans()):
         caps = {}
         if draw(st.booleans()):
-            caps["frontier"] = draw(st.sampled_from([1, 2, 100]))
+            caps["frontier"] = draw(_ST_CAP)
         if draw(st.booleans()):
-            caps["visited"] = draw(st.sampled_from([1, 2, 100]))
+            caps["visited"] = draw(_ST_CAP)
         perf["t1"] = {"caps": caps}
         if draw(st.booleans()):
-            perf["t1"]["dedupe_window"] = draw(st.sampled_from([1, 4]))
-    ncalls = draw(st.sampled_from([1, 2, 2, 3, 3])) if cache != "off" else draw(st.sampled_from([1, 1, 1, 2]))
+            perf["t1"]["dedupe_window"] = draw(_ST_WIN)
+    # the active-graph list: may name a graph twice (tasks are keyed (index, gid) for that reason; cache off - two tasks
+    # filling the same cache entry concurrently is the listed eviction-order finding's territory) and a graph the store
+    # does not hold yet (get_graph creates it empty)
+    order = list(gids)
+    if ng >= 1 and cache == "off" and draw(_ST_ONE_IN_4):
+        for _ in range(draw(st.integers(1, 2))):
+            order.insert(draw(st.integers(0, len(order))), draw(st.sampled_from(gids)))
+    if draw(_ST_ONE_IN_6):
+        order.insert(draw(st.integers(0, len(order))), "ghost")
+    nt = len(order)
+    ncalls = draw(_ST_NCALLS_C) if cache != "off" else draw(_ST_NCALLS_0)
     calls = []
     for j in range(ncalls):
-        text = draw(world.texts_for(graphs)) if (j == 0 or draw(st.sampled_from([True, False, False]))) else calls[0]["text"]
+        text = draw(world.texts_for(graphs)) if (j == 0 or draw(_ST_ONE_IN_3)) else calls[0]["text"]
         if ng > 6 and j == 0:
             text = ("apple " + text).strip()
-        calls.append({"text": text, "prio": list(draw(st.permutations(list(range(ng)))))})
-    return {"free_runs": draw(st.sampled_from([0, 0, 2])), "graphs": graphs, "order": gids, "t1": t1, "cache": cache, "cache_n": cache_n, "perf": perf,
-            "workers": draw(st.sampled_from([2, 2, 3, 4, 5, 6, 7, 8])), "off": draw(st.sampled_from(OFF_MODES)), "calls": calls,
-            "validated": draw(st.sampled_from([False, False, False, True]))}
+        calls.append({"text": text, "prio": list(draw(st.permutations(list(range(nt)))))})
+    case = {"free_runs": draw(st.sampled_from([0, 0, 2])), "graphs": graphs, "order": order, "t1": t1, "cache": cache, "cache_n": cache_n, "perf": perf,
+            "workers": draw(_ST_T1_W), "off": draw(st.sampled_from(OFF_MODES)), "calls": calls,
+            "validated": draw(_ST_ONE_IN_4)}
+    # other perf.parallel leaves next to the T1 ones (same in both runs)
+    if draw(_ST_ONE_IN_3):
+        case["par_extra"] = {"t2": draw(st.booleans()), "agents": draw(st.booleans())}
+    # scheduler slice caps on the context (same in both runs)
+    if draw(_ST_ONE_IN_4):
+        sl = {}
+        if draw(st.booleans()):
+            sl["t1_iters"] = draw(_ST_SLICE)
+        if draw(st.booleans()):
+            sl["t1_pops"] = draw(_ST_SLICE)
+        case["slice"] = sl
+    # a store failure inside the per-graph task(s) of some graphs, LAST call only (what the caches hold after a failed
+    # call is not part of the property)
+    if nt >= 1 and draw(_ST_ONE_IN_6):
+        k = draw(st.sampled_from([1, 1, 2, nt]))
+        case["fault"] = sorted(set(draw(st.lists(st.sampled_from(order), min_size=min(k, nt), max_size=min(k, nt)))))
+    return case
+
+
+def _t1_spec(case, gid):
+    return case["graphs"].get(gid) or {"nodes": [], "edges": []}
 
 
 def _t1_cache_can_evict(case):
@@ -582,7 +798,7 @@ def _t1_cache_can_evict(case):
     keys = set()
     for call in case["calls"]:
         for gid in case["order"]:
-            seeds = t1ref.ref_seeds(case["graphs"][gid], call["text"])
+            seeds = t1ref.ref_seeds(_t1_spec(case, gid), call["text"])
             if seeds:
                 keys.add((gid, tuple(seeds)))
     return int(case["cache_n"]) < len(keys)
@@ -601,6 +817,7 @@ def _t1_cfg(case, parallel: bool):
     t1 = copy.deepcopy(case["t1"])
     perf = copy.deepcopy(case["perf"])
     mode = case["cache"]
+    extra = dict(case.get("par_extra") or {})
     if mode == "off":
         t1["cache"] = {"enabled": False, "max_entries": 512, "ttl_s": 300}
     elif mode in ("lru", "lru_small"):
@@ -609,31 +826,48 @@ def _t1_cfg(case, parallel: bool):
         t1["cache"] = {"enabled": False, "max_entries": 512, "ttl_s": 300}
         perf.setdefault("t1", {})["cache"] = {"max_entries": 64 if mode == "bytes" else int(case["cache_n"]), "max_bytes": 0}
     if parallel:
-        perf["parallel"] = {"enabled": True, "t1": True, "max_workers": int(case["workers"])}
+        perf["parallel"] = dict(extra, enabled=True, t1=True, max_workers=int(case["workers"]))
     else:
         off = case["off"]
         if off == "disabled":
-            perf["parallel"] = {"enabled": False, "t1": True, "max_workers": int(case["workers"])}
+            perf["parallel"] = dict(extra, enabled=False, t1=True, max_workers=int(case["workers"]))
         elif off == "gate_off":
-            perf["parallel"] = {"enabled": True, "t1": False, "max_workers": int(case["workers"])}
+            perf["parallel"] = dict(extra, enabled=True, t1=False, max_workers=int(case["workers"]))
         elif off == "workers1":
-            perf["parallel"] = {"enabled": True, "t1": True, "max_workers": 1}
+            perf["parallel"] = dict(extra, enabled=True, t1=True, max_workers=1)
         elif off == "workers0":
-            perf["parallel"] = {"enabled": True, "t1": True, "max_workers": 0}
+            perf["parallel"] = dict(extra, enabled=True, t1=True, max_workers=0)
     if case.get("validated"):
         keep = {k: t1[k] for k in ("cache", "radius_cap", "queue_budget", "iter_cap", "node_budget") if k in t1}
         return world.validated_cfg({"t1": keep, "perf": perf})
     return world.to_attr({"t1": t1, "perf": perf})
 
 
+def _t1_ctx(case, cfg):
+    ctx = SimpleNamespace(cfg=cfg, config=cfg, agent_id="A", turn_id=1)
+    if case.get("slice"):
+        ctx.slice_budgets = dict(case["slice"])
+    return ctx
+
+
+def _t1_exc(e):
+    """("exc", type name, text, messages of the aggregated task failures or None)"""
+    errs = getattr(e, "errors", None)
+    msgs = [str(getattr(x, "message", x)) for x in errs] if isinstance(errs, list) else None
+    return ("exc", type(e).__name__, str(e), msgs)
+
+
 def run_t1_calls(case, parallel: bool, free: bool = False):
-    """All calls of the case on one fresh process cache. -> list of ("ok", deltas, metrics, order) | ("exc", type name)."""
+    """All calls of the case on one fresh process cache. -> list of ("ok", deltas, metrics, order) | ("exc", type name, text, msgs)."""
     import clematis.engine.stages.t1 as t1mod
 
     world.reset_engine_globals()
     cfg = _t1_cfg(case, parallel)
-    inner = world.build_store({g: case["graphs"][g] for g in case["order"]})
-    n = len(case["order"])
+    inner = world.build_store({g: case["graphs"][g] for g in case["order"] if g in case["graphs"]})
+    order = list(case["order"])
+    n = len(order)
+    dups = len(set(order)) < n
+    last = len(case["calls"]) - 1
     out = []
     if not parallel or free:
         # sequential path — or (free) the parallel configuration on the engine's own thread pool, nothing gated, with a
@@ -643,39 +877,61 @@ def run_t1_calls(case, parallel: bool, free: bool = False):
         if free:
             _sys.setswitchinterval(1e-6)
         try:
-            state = {"store": inner, "active_graphs": list(case["order"])}  # one engine state for all calls (it owns the stage cache)
-            for call in case["calls"]:
-                ctx = SimpleNamespace(cfg=cfg, config=cfg, agent_id="A", turn_id=1)
+            store = GatedStore(inner, {})
+            state = {"store": store, "active_graphs": list(order)}  # one engine state for all calls (it owns the stage cache)
+            for j, call in enumerate(case["calls"]):
+                ctx = _t1_ctx(case, cfg)
+                store.faults = set(case.get("fault") or ()) if j == last else ()
                 try:
                     res = t1mod.t1_propagate(ctx, state, call["text"])
                 except Exception as e:  # noqa: BLE001 - compared with the parallel run below
-                    out.append(("exc", type(e).__name__, str(e)))
+                    out.append(_t1_exc(e))
                     continue
                 out.append(("ok", copy.deepcopy(res.graph_deltas), copy.deepcopy(res.metrics), None))
         finally:
             _sys.setswitchinterval(old_si)
         return out, None
-    store = GatedStore(inner, {g: i for i, g in enumerate(case["order"])})
+    # a graph listed twice: two tasks call get_graph with the same gid, so the tasks are gated in the run_parallel shim
+    store = GatedStore(inner, {} if dups else {g: i for i, g in enumerate(order)})
     baseline = set(threading.enumerate())
-    state = {"store": store, "active_graphs": list(case["order"])}
-    with _Fanout(t1mod, enter_in_wrapper=False) as fan:
-        for call in case["calls"]:
+    state = {"store": store, "active_graphs": list(order)}
+    with _Fanout(t1mod, enter_in_wrapper=dups) as fan:
+        for j, call in enumerate(case["calls"]):
             gate = Gate(n)
             store.gate = gate
+            store.faults = set(case.get("fault") or ()) if j == last else ()
             fan.gate = gate
-            ctx = SimpleNamespace(cfg=cfg, config=cfg, agent_id="A", turn_id=1)
+            ctx = _t1_ctx(case, cfg)
             outcome, info = drive(gate, lambda: t1mod.t1_propagate(ctx, state, call["text"]), min(int(case["workers"]), n), call["prio"])
             store.gate = None
             if info["early_return"]:
                 raise Violation("t1_propagate returned while per-graph tasks were still running", case, "t1-early-return")
             if outcome[0] == "exc":
-                out.append(("exc", type(outcome[1]).__name__, str(outcome[1])))
+                if not isinstance(outcome[1], Exception):
+                    raise outcome[1]
+                out.append(_t1_exc(outcome[1]))
             else:
                 res = outcome[1]
                 out.append(("ok", copy.deepcopy(res.graph_deltas), copy.deepcopy(res.metrics), list(info["order"])))
         fanned = len(fan.calls)
     _no_stray_threads(baseline)
     return out, fanned
+
+
+def _t1_fault_clause(case, j, b, where, sig):
+    """Last call with injected store failures: the parallel path must fail too; when it reports the aggregated task
+    failures (ParallelError.errors) they must be ALL failing per-graph tasks, in active-graph order."""
+    faults = set(case.get("fault") or ())
+    if not faults or j != len(case["calls"]) - 1:
+        return
+    if b[0] != "exc":
+        raise Violation(f"{where}: store.get_graph failed for graphs {sorted(faults)} (the sequential path raises) but the "
+                        f"parallel path returned a result", case, sig + "-swallowed")
+    if b[3] is not None:
+        want = [f"fault-{g}" for g in case["order"] if g in faults]
+        if b[3] != want:
+            raise Violation(f"{where}: parallel path reports task failures {b[3]}, every failing per-graph task in active-graph "
+                            f"order is {want}", case, sig + "-errors")
 
 
 def check_t1(case, rec=None):
@@ -690,6 +946,7 @@ def check_t1(case, rec=None):
         if a[0] == "exc" or b[0] == "exc":
             if a[0] != b[0]:
                 raise Violation(f"{where}: sequential {a[:3]} but parallel {b[:3]}", case, "t1-raises-differ")
+            _t1_fault_clause(case, j, b, where, "t1-fault")
             continue
         order = b[3]
         if order != sorted(order):
@@ -717,6 +974,7 @@ def check_t1(case, rec=None):
             if a[0] == "exc" or b[0] == "exc":
                 if a[0] != b[0]:
                     raise Violation(f"{where}: sequential {a[:3]} but free-running parallel {b[:3]}", case, "t1-free-raises-differ")
+                _t1_fault_clause(case, j, b, where, "t1-free-fault")
                 continue
             if a[1] != b[1]:
                 raise Violation(f"{where}: graph_deltas of the free-running parallel path (real thread pool, 1 us switch interval) differ "
@@ -730,17 +988,26 @@ def check_t1(case, rec=None):
                 raise Violation(f"{where}: counters of the free-running parallel path differ (sequential, parallel): {diff}", case, "t1-free-counters")
     if rec is not None:
         seeded = 0
-        for gid in case["order"]:
-            if any(t1ref.ref_seeds(case["graphs"][gid], c["text"]) for c in case["calls"]):
+        for gid in dict.fromkeys(case["order"]):
+            if any(t1ref.ref_seeds(_t1_spec(case, gid), c["text"]) for c in case["calls"]):
                 seeded += 1
+        n = len(case["order"])
         nt = seeded >= 2 and reordered and bool(fanned)
-        labels = [f"graphs={len(case['order'])}", f"cache={case['cache']}", f"calls={len(case['calls'])}", f"off={case['off']}"] + \
+        perf_t1 = case["perf"].get("t1") or {}
+        labels = [f"graphs={n}", f"cache={case['cache']}", f"calls={len(case['calls'])}", f"off={case['off']}"] + \
                  (["seeded>=2"] if seeded >= 2 else []) + (["completion!=graph_order"] if reordered else []) + \
                  (["fanout"] if fanned else ["no_fanout"]) + (["validated"] if case.get("validated") else []) + \
                  (["deltas>0"] if any(x[0] == "ok" and x[1] for x in seq) else []) + \
                  (["cache_hit"] if any(x[0] == "ok" and x[2].get("cache_hits") for x in seq) else []) + \
                  (["metrics_gate"] if case["perf"].get("enabled") and case["perf"]["metrics"].get("report_memory") else []) + \
-                 ([f"excluded:{F_T1_EVICT}"] if evict_excluded else [])
+                 ([f"excluded:{F_T1_EVICT}"] if evict_excluded else []) + \
+                 (["graph_listed_twice"] if len(set(case["order"])) < n else []) + (["unknown_graph"] if "ghost" in case["order"] else []) + \
+                 (["workers>tasks"] if int(case["workers"]) > n else []) + (["par_extra_leaves"] if case.get("par_extra") else []) + \
+                 (["slice_caps"] if case.get("slice") else []) + \
+                 (["perf_t1_caps_active"] if case["perf"].get("enabled") and (perf_t1.get("caps") or perf_t1.get("dedupe_window")) else []) + \
+                 (["perf_counters>0"] if any(x[0] == "ok" and any(x[2].get(k) for k in ("t1_frontier_evicted", "t1_dedup_hits", "t1_visited_evicted")) for x in seq) else []) + \
+                 ([f"fault={'all' if len(set(case['fault'])) >= len(set(case['order'])) else len(case['fault'])}"] if case.get("fault") else []) + \
+                 (["seq_raises"] if any(x[0] == "exc" for x in seq) else [])
         rec.case(nontrivial=nt, dig=digest(case) if nt else None, labels=labels,
                  sample={"order": case["order"], "workers": case["workers"], "cache": case["cache"],
                          "calls": [{"text": c["text"], "completion": p[3] if p[0] == "ok" else None} for c, p in zip(case["calls"], par)],
@@ -767,14 +1034,15 @@ T2_TIERS = ["exact_semantic", "cluster_semantic", "archive"]
 F_MERGE = "t2-parallel-merge-fn-none"
 F_EXACT = "t2-parallel-exact-tier-empty"
 F_CLUSTER = "t2-parallel-cluster-per-shard"
+F_DUP = "t2-parallel-duplicate-id-k-slots"
 _OFF = "#off"  # tier name suffix the stage does not know: the tier is walked (reported) but contributes nothing
 _W = st.sampled_from([0.0, 0.05, 0.2, 0.25, 0.5, 0.75, 1.0])
 
 
 @st.composite
 def t2_eps(draw):
-    """2-12 episodes with unique ids; biased so that a query usually matches several of them (hits spread over shards)."""
-    n = draw(st.sampled_from([2, 3, 4, 5, 6, 8, 10, 12]))
+    """0-12 episodes with unique ids; biased so that a query usually matches several of them (hits spread over shards)."""
+    n = draw(st.sampled_from([0, 1, 2, 2, 3, 3, 4, 4, 5, 5, 6, 6, 8, 8, 10, 10, 12, 12]))
     ids = list(draw(st.permutations(world.EP_IDS)))[:n]
     enc = world.BowEncoder()
     eps = []
@@ -840,6 +1108,16 @@ def t2_eps_nearties(draw):
     return eps
 
 
+_HYBRID_CFGS = [
+    {"enabled": True, "lambda_graph": 1.0, "edge_threshold": 0.0},
+    {"enabled": True, "lambda_graph": 1.0, "edge_threshold": 0.0, "walk_hops": 2, "damping": 0.5},
+    {"enabled": True, "lambda_graph": 0.25, "edge_threshold": 0.1, "anchor_top_m": 1},
+    {"enabled": True, "lambda_graph": 1.0, "edge_threshold": 0.0, "k_max": 2, "degree_norm": "invdeg"},
+    {"enabled": True, "lambda_graph": 1.0, "edge_threshold": 0.0, "max_bonus": 0.01},
+]
+PERF_MODES = ["none", "none", "none", "both", "both", "enabled_only", "metrics_only"]
+
+
 @st.composite
 def t2_cases(draw):
     mode = draw(st.sampled_from(["plain", "plain", "plain", "plain", "skewed", "skewed", "nearties"]))
@@ -868,12 +1146,14 @@ def t2_cases(draw):
     t2["owner_scope"] = draw(st.sampled_from(["any", "any", "any", "agent", "agent", "world"]))
     if draw(st.sampled_from([False, False, True])):
         t2["residual_cap_per_turn"] = draw(st.sampled_from([0, 1, 2, 32]))
-    layers = draw(st.sampled_from(["none", "none", "none", "quality", "quality+mmr"]))
-    if layers != "none":
+    layers = draw(st.sampled_from(["none", "none", "none", "none", "quality", "quality+mmr", "hybrid", "hybrid", "hybrid+quality"]))
+    if "quality" in layers:
         q = {"enabled": True, "fusion": {"alpha_semantic": draw(st.sampled_from([0.0, 0.3, 0.6, 1.0]))}}
-        if layers != "quality":
+        if "mmr" in layers:
             q["mmr"] = {"enabled": True, "lambda": draw(st.sampled_from([0.0, 0.5, 1.0])), "k": draw(st.sampled_from([1, 2, 10]))}
         t2["quality"] = q
+    if draw(st.sampled_from([True, False, False, False, False, False])):
+        t2["backend"] = "lancedb"  # the attached index stays the in-memory one; the fan-out gate accepts both backend names
     agent = draw(st.sampled_from(["A", "A", "B", "world"]))
     ep_words = [w for e in eps for w in (e.get("text") or "").lower().split()] or world.VOCAB
     text = " ".join(draw(st.lists(st.sampled_from(ep_words + world.VOCAB[:3]), min_size=1, max_size=3)))
@@ -889,6 +1169,27 @@ def t2_cases(draw):
         t2["owner_scope"] = "any"
         t2.pop("quality", None)
         layers = "none"
+    gel = None
+    if "hybrid" in layers:
+        # graph-expansion rerank on top of the fan-out: GEL edges between the episode ids
+        t2["hybrid"] = dict(draw(st.sampled_from(_HYBRID_CFGS)))
+        gel = draw(world.gel_graphs(sorted({str(e["id"]) for e in eps})))
+    # the same episode id stored again (the reflection writer derives ids from agent / turn / slot / text, so a re-run
+    # turn appends an entry with an id the index already holds), here or in another shard
+    dup = False
+    if mode == "plain" and eps and draw(st.sampled_from([True, False])):
+        enc = world.BowEncoder()
+        for _ in range(draw(st.integers(1, 3))):
+            src = copy.deepcopy(eps[draw(st.integers(0, len(eps) - 1))])
+            kind = draw(st.sampled_from(["same", "same", "query", "query+", "query+", "other"]))
+            if kind == "other":  # same id, the content of another episode
+                other = eps[draw(st.integers(0, len(eps) - 1))]
+                src["text"], src["vec_full"] = other["text"], copy.deepcopy(other["vec_full"])
+            elif kind != "same":  # same id, a better / slightly worse match for the query than the stored copy
+                src["text"] = text if kind == "query" else text + " " + draw(st.sampled_from(world.VOCAB))
+                src["vec_full"] = enc.vec(src["text"])
+            eps.insert(draw(st.integers(0, len(eps))), src)
+        dup = True
     node_ids = sorted({nd["id"] for s in graphs.values() for nd in s["nodes"]})
     t1_ids = draw(st.lists(st.sampled_from(node_ids), max_size=3, unique=True)) if node_ids else []
     # earlier queries on the SAME index (other agents / texts): whatever the index or the fan-out memoises between calls
@@ -900,17 +1201,41 @@ def t2_cases(draw):
                         "text": " ".join(draw(st.lists(st.sampled_from(ep_words + world.VOCAB[:3]), min_size=1, max_size=3)))})
         if draw(st.booleans()):
             t2["owner_scope"] = "agent"
-    return {"free_runs": draw(st.sampled_from([0, 0, 2])), "pre": pre, "eps": eps, "graphs": graphs, "t2": t2, "agent": agent, "text": text, "t1_ids": t1_ids,
+    # stage cache on (LRU or size-aware) with the compared request issued before: the compared call is then a cache hit
+    # on an entry the SAME path filled
+    t2cache = draw(st.sampled_from(["off"] * 8 + ["lru", "bytes"]))
+    if t2cache != "off":
+        pre = pre + [{"same": True}] * draw(st.sampled_from([0, 1, 1]))
+    case = {"free_runs": draw(st.sampled_from([0, 0, 2])), "pre": pre, "eps": eps, "graphs": graphs, "t2": t2, "agent": agent, "text": text, "t1_ids": t1_ids,
             "slice_k": draw(st.sampled_from([None, None, None, 0, 1, 2])), "workers": draw(st.sampled_from([3, 3, 4, 5, 6] if skewed else [2, 2, 3, 4, 5, 6, 8])),
             "prio": list(draw(st.permutations(list(range(12))))), "off": draw(st.sampled_from(OFF_MODES)),
-            "metrics_gate": draw(st.sampled_from([False, False, True])), "layers": layers}
+            "perf_mode": draw(st.sampled_from(PERF_MODES)), "layers": layers, "t2cache": t2cache}
+    if gel is not None:
+        case["gel"] = gel
+    if dup:
+        case["dup_ids"] = True
+    if draw(st.sampled_from([True, False, False])):
+        case["par_extra"] = {"t1": draw(st.booleans()), "agents": draw(st.booleans())}
+    return case
 
 
 def _t2_tiers(case):
     return list(case["t2"].get("tiers") or T2_TIERS)
 
 
-def run_t2_once(case, parallel: bool, tiers=None, known=None, free=False):
+def _t2_perf(case):
+    mode = case.get("perf_mode") or ("both" if case.get("metrics_gate") else "none")
+    perf = {}
+    if mode == "both":
+        perf = {"enabled": True, "metrics": {"report_memory": True}}
+    elif mode == "enabled_only":
+        perf = {"enabled": True, "metrics": {"report_memory": False}}
+    elif mode == "metrics_only":
+        perf = {"enabled": False, "metrics": {"report_memory": True}}
+    return perf
+
+
+def run_t2_once(case, parallel: bool, tiers=None, known=None, free=False, eps=None):
     """-> (("ok", view) | ("exc", exception), info). view = comparable projection of the T2Result."""
     import clematis.engine.stages.t2.core as core
 
@@ -918,22 +1243,26 @@ def run_t2_once(case, parallel: bool, tiers=None, known=None, free=False):
     t2 = copy.deepcopy(case["t2"])
     if tiers is not None:
         t2["tiers"] = list(tiers)
-    perf = {}
-    if case.get("metrics_gate"):
-        perf = {"enabled": True, "metrics": {"report_memory": True}}
+    perf = _t2_perf(case)
+    t2cache = case.get("t2cache") or "off"
+    if t2cache == "lru":
+        t2["cache"] = {"enabled": True, "max_entries": 8, "ttl_s": 300}
+    elif t2cache == "bytes":
+        perf = world.deep_merge(perf, {"enabled": True, "t2": {"cache": {"max_entries": 8, "max_bytes": 0}}})
     w = int(case["workers"])
+    extra = dict(case.get("par_extra") or {})
     if parallel:
-        perf["parallel"] = {"enabled": True, "t2": True, "max_workers": w}
+        perf["parallel"] = dict(extra, enabled=True, t2=True, max_workers=w)
     else:
         off = case.get("off", "absent")
         if off == "disabled":
-            perf["parallel"] = {"enabled": False, "t2": True, "max_workers": w}
+            perf["parallel"] = dict(extra, enabled=False, t2=True, max_workers=w)
         elif off == "gate_off":
-            perf["parallel"] = {"enabled": True, "t2": False, "max_workers": w}
+            perf["parallel"] = dict(extra, enabled=True, t2=False, max_workers=w)
         elif off == "workers1":
-            perf["parallel"] = {"enabled": True, "t2": True, "max_workers": 1}
+            perf["parallel"] = dict(extra, enabled=True, t2=True, max_workers=1)
         elif off == "workers0":
-            perf["parallel"] = {"enabled": True, "t2": True, "max_workers": 0}
+            perf["parallel"] = dict(extra, enabled=True, t2=True, max_workers=0)
     over = {"t2": t2}
     if perf:
         over["perf"] = perf
@@ -942,15 +1271,25 @@ def run_t2_once(case, parallel: bool, tiers=None, known=None, free=False):
     if case.get("slice_k") is not None:
         ctx.slice_budgets = {"t2_k": case["slice_k"]}
     store = world.build_store(case["graphs"])
-    idx = world.build_index(case["eps"])
+    idx = world.build_index(case["eps"] if eps is None else eps)
     state = {"store": store, "active_graphs": list(case["graphs"].keys()), "mem_index": idx}
+    if case.get("gel") is not None:
+        state["graph"] = copy.deepcopy(case["gel"])
     t1 = SimpleNamespace(graph_deltas=[{"op": "upsert_node", "id": i} for i in case["t1_ids"]], metrics={})
     id0 = world.index_digest(idx)
 
     for pq in case.get("pre") or []:
-        pctx = world.make_ctx(cfg, agent=pq["agent"], now=world.NOW_ISO, now_ms=world.NOW_MS, enc=world.BowEncoder())
+        if pq.get("same"):
+            # the compared request itself, issued earlier on the same state (fills the stage cache when one is on)
+            pctx = world.make_ctx(cfg, agent=case["agent"], now=world.NOW_ISO, now_ms=world.NOW_MS, enc=world.BowEncoder())
+            if case.get("slice_k") is not None:
+                pctx.slice_budgets = {"t2_k": case["slice_k"]}
+            ptext, pt1 = case["text"], t1
+        else:
+            pctx = world.make_ctx(cfg, agent=pq["agent"], now=world.NOW_ISO, now_ms=world.NOW_MS, enc=world.BowEncoder())
+            ptext, pt1 = pq["text"], SimpleNamespace(graph_deltas=[], metrics={})
         try:
-            core.t2_semantic(pctx, state, pq["text"], SimpleNamespace(graph_deltas=[], metrics={}))  # same path, free-running
+            core.t2_semantic(pctx, state, ptext, pt1)  # same path, free-running
         except Exception:  # noqa: BLE001 - only the last call is compared
             pass
 
@@ -994,6 +1333,8 @@ def run_t2_once(case, parallel: bool, tiers=None, known=None, free=False):
     if world.index_digest(idx) != id0:
         raise Violation("parallel t2_semantic modified the memory index", case, "t2-mutates")
     if outcome[0] == "exc":
+        if not isinstance(outcome[1], Exception):
+            raise outcome[1]
         return outcome, info
     return ("ok", view(outcome[1])), info
 
@@ -1035,6 +1376,12 @@ def check_t2(case, rec=None):
     if seq[0] == "exc":
         if par[0] != "exc":
             raise Violation(f"sequential t2_semantic raised {type(seq[1]).__name__}: {seq[1]} but the parallel run returned ({desc})", case, "t2-raises-differ")
+        elif case.get("free_runs"):
+            for _ in range(int(case["free_runs"])):
+                fr, _fi = run_t2_once(case, True, known=known, free=True)
+                if fr[0] != "exc":
+                    raise Violation(f"sequential t2_semantic raised {type(seq[1]).__name__}: {seq[1]} but the free-running parallel run "
+                                    f"returned ({desc})", case, "t2-free-raises-differ")
     elif par[0] == "exc":
         e = par[1]
         sig = "t2-par-merge-fn-none" if (isinstance(e, TypeError) and "NoneType" in str(e)) else "t2-par-raises"
@@ -1055,23 +1402,44 @@ def check_t2(case, rec=None):
                     raise Violation(f"free-running parallel T2 (real thread pool, 1 us switch interval) differs from sequential although "
                                     f"every gated completion order agrees: {fdiff} ({desc})", case, "t2-free-differs")
     if rec is not None:
-        size = max(1, -(-len(case["eps"]) // max(1, min(int(case["workers"]), len(case["eps"])))))
+        ne = len(case["eps"])
+        size = max(1, -(-ne // max(1, min(int(case["workers"]), ne))))
         pos = {str(e["id"]): i // size for i, e in enumerate(case["eps"])}
         hit_shards = {pos[i] for i, _, _ in seq[1]["retrieved"]} if seq[0] == "ok" else set()
         order = info.get("order") or []
         nt = info.get("shards", 0) >= 2 and len(hit_shards) >= 2 and bool(info.get("fanned"))
+        k = int(case["t2"].get("k_retrieval", 64))
+        sc = [round(x, 9) for _, x, _ in seq[1]["retrieved"]] if seq[0] == "ok" else []
         labels = [f"shards={info.get('shards')}", "tiers=" + ",".join(t[:2] for t in tiers), f"scope={case['t2'].get('owner_scope')}",
-                  f"layers={case['layers']}"] + (["hit_shards>=2"] if len(hit_shards) >= 2 else []) + \
+                  f"layers={case['layers']}", f"perf={case.get('perf_mode') or ('both' if case.get('metrics_gate') else 'none')}"] + \
+                 (["hit_shards>=2"] if len(hit_shards) >= 2 else []) + \
                  (["completion!=shard_order"] if order != sorted(order) else []) + (["fanout"] if info.get("fanned") else ["no_fanout"]) + \
-                 (["k_truncates"] if seq[0] == "ok" and len(seq[1]["retrieved"]) == case["t2"].get("k_retrieval") else []) + \
+                 (["k_truncates"] if seq[0] == "ok" and len(seq[1]["retrieved"]) == k else []) + \
+                 (["equal_scores_among_hits"] if len(set(sc)) < len(sc) else []) + \
                  (["residual>0"] if seq[0] == "ok" and seq[1]["residual"] else []) + ([f"excluded:{excluded}"] if excluded else []) + \
                  ([f"hits={min(len(seq[1]['retrieved']), 3)}{'+' if len(seq[1]['retrieved']) >= 3 else ''}"] if seq[0] == "ok" else ["seq_raises"]) + \
-                 (["merge_fn_substituted"] if info.get("substituted") else [])
+                 (["merge_fn_substituted"] if info.get("substituted") else []) + \
+                 (["episodes<workers"] if ne < int(case["workers"]) else []) + (["episodes<=1"] if ne <= 1 else []) + \
+                 (["hybrid_reordered"] if seq[0] == "ok" and (seq[1]["metrics"].get("hybrid") or {}).get("k_reordered") else []) + \
+                 ([f"t2cache={case.get('t2cache')}"] if (case.get("t2cache") or "off") != "off" else []) + \
+                 (["stage_cache_hit"] if seq[0] == "ok" and any(p.get("same") for p in case.get("pre") or []) and (case.get("t2cache") or "off") != "off" else []) + \
+                 (["dup_ids"] if case.get("dup_ids") else []) + \
+                 (["par_extra_leaves"] if case.get("par_extra") else []) + \
+                 ([f"backend={case['t2']['backend']}"] if case["t2"].get("backend") else [])
         rec.case(nontrivial=nt and not excluded, dig=digest(case) if nt and not excluded else None, labels=labels,
                  sample={"episodes": [(e["id"], e.get("owner"), e.get("text"), e.get("ts")) for e in case["eps"]][:8], "t2": case["t2"],
                          "agent": case["agent"], "query": case["text"], "workers": case["workers"], "completion": order,
                          "retrieved": [(i, round(s, 6)) for i, s, _ in seq[1]["retrieved"]] if seq[0] == "ok" else None}
                  if nt and not excluded else None)
+
+
+def _dedup_eps(eps):
+    seen, out = set(), []
+    for e in eps:
+        if str(e["id"]) not in seen:
+            seen.add(str(e["id"]))
+            out.append(e)
+    return out
 
 
 def _classify_t2(case, rec, tiers, seq, par, diff, info, desc):
@@ -1093,6 +1461,15 @@ def _classify_t2(case, rec, tiers, seq, par, diff, info, desc):
             return s2[0] == "ok" and _t2_diff(s2[1], p[1], model=True) is None
         return False
 
+    # root cause 0: an episode id stored more than once - the sequential walk lets the copies use up slots of a tier's
+    # top-k before it drops them, the cross-shard merge drops them first; the difference vanishes without the copies
+    ids = [str(e["id"]) for e in case["eps"]]
+    if len(set(ids)) < len(ids):
+        s0, _ = run_t2_once(case, False, eps=_dedup_eps(case["eps"]))
+        p0, _ = run_t2_once(case, True, eps=_dedup_eps(case["eps"]), known=(lambda fid: quiet(fid)))
+        if s0[0] == "ok" and p0[0] == "ok" and _t2_diff(s0[1], p0[1]) is None:
+            raise Violation(f"parallel T2 differs from sequential when an episode id is stored more than once (ids {ids}): {diff} ({desc})",
+                            case, "t2-par-duplicate-id")
     # root cause 1: the exact tier contributes nothing in the parallel path
     if "exact_semantic" in tiers:
         s2, _ = run_t2_once(case, False, tiers=_swap(tiers, "exact_semantic"))
@@ -1156,6 +1533,9 @@ PROBE_CASES = {
     # first locally and contributes e4
     F_CLUSTER: _t2_probe_case([_ep("e1", "apple", cluster="c1"), _ep("e2", "pear", cluster="c2"), _ep("e3", "pear", cluster="c2"),
                                _ep("e4", "pear apple", cluster="c2")], ["cluster_semantic"], clusters_top_m=1),
+    # e1 stored twice (shards 1 and 2), k=2: sequential top-2 of the tier is [e1, e1] -> [e1]; the merge returns [e1, e2]
+    F_DUP: dict(_t2_probe_case([_ep("e1", "apple"), _ep("e3", "pear"), _ep("e1", "apple"), _ep("e2", "apple pear")], ["archive"],
+                               k_retrieval=2, sim_threshold=0.0), dup_ids=True),
     # LRU of one entry, two graphs, same text twice; first call completes in order [g2, g1]
     F_T1_EVICT: {"graphs": {"g1": {"nodes": [{"id": "a", "label": "apple", "tags": []}], "edges": []},
                             "g2": {"nodes": [{"id": "b", "label": "apple", "tags": []}], "edges": []}},
@@ -1193,4 +1573,5 @@ KNOWN_PROBES = {
     F_EXACT: lambda: _probe_t2(F_EXACT, behind=(F_MERGE,)),
     F_CLUSTER: lambda: _probe_t2(F_CLUSTER, behind=(F_MERGE,)),
     F_T1_EVICT: _probe_t1_evict,
+    F_DUP: lambda: _probe_t2(F_DUP),
 }
